@@ -181,9 +181,11 @@ fn send_errors() {
     let tix = if traw >= 9 { traw + 1 } else { traw };
     let type_ix = vnd_range(0, 3, 5);
     // which argument expression fails to evaluate: 0 none, 1 targetexpr, 2 eventexpr, 3 param expr, 4 namelist location, 5 delayexpr, 6 typeexpr
-    let bad = vnd_conc(vnd_range(0, 6, 6), 6);
+    // 7: targetexpr and typeexpr are the same variable (one value, locked for both); 8: a delay beyond the timer's date range
+    let bad = vnd_conc(vnd_range(0, 8, 6), 8);
     let t = topo(with_parent, with_child);
     t.g[0].lock().unwrap().data.set_undefined("a".to_string(), Data::Integer(1));
+    t.g[0].lock().unwrap().data.set_undefined("v".to_string(), Data::String("#_scxml_2".to_string()));
     let fsm = Fsm::new();
     let mut dm = RFsmExpressionDatamodel::new(t.g[0].clone());
     let mut sp = mk_send(tix, false, type_ix, 0);
@@ -194,6 +196,8 @@ fn send_errors() {
         4 => { sp.name_list.push("nosuch".to_string()); }
         5 => { sp.delay_expr = src("nosuch", 13); }
         6 => { sp.type_value = Data::None(); sp.type_expr = src("nosuch", 14); }
+        7 => { sp.target = Data::None(); sp.target_expr = src("v", 15); sp.type_value = Data::None(); sp.type_expr = src("v", 16); }
+        8 => { sp.delay_ms = 9_100_000_000_000_000_000; }
         _ => {}
     }
     let ok = sp.execute(&mut dm, &fsm);
@@ -277,7 +281,9 @@ fn delayed_schedule() {
     if via_delayexpr { sp.delay_ms = 0; sp.delay_expr = src("'2s'", 6); } else { sp.delay_ms = delay; }
     let ok = sp.execute(&mut dm, &fsm);
     let negative = !via_delayexpr && delay >= (1u64 << 63);
-    let illegal = negative || tix == 1;
+    // delays beyond 1000 years are outside the timer's date range and are rejected like negative ones
+    let too_large = !via_delayexpr && delay > 31_622_400_000_000 && delay < (1u64 << 63);
+    let illegal = negative || too_large || tix == 1;
     let pending = t.g[0].lock().unwrap().delayed_send.contains_key("sid1");
     let e1 = drain_ext(&t.g[0]);
     let names = internal_names(&t.g[0]);
